@@ -131,4 +131,82 @@ theorem srsworPartition_eq (o t g : Nat) (hg : g ≤ t) (ht : t ≤ o) (ho : 0 <
   simp only [srsworPartition]
   rw [e, srsworFact_idx o t ho ht, srsworFact_idx o g ho (by omega), srsworFact_idx o (t - g) ho (by omega)]
 
+/-! ## the tensor variant of the cardinality filter -/
+
+/-- row `s` of the `m`-column binary table -/
+def binRow (m s : Nat) : List Nat := (List.range m).map fun r => (s / 2 ^ r) % 2
+
+theorem enumBinary_eq (m : Nat) : enumBinary m = (List.range (2 ^ m)).map (binRow m) := rfl
+
+/-- a row index below `2^n` has only zeros beyond column `n` -/
+theorem binRow_pad (n d s : Nat) (hs : s < 2 ^ n) :
+    binRow (n + d) s = binRow n s ++ List.replicate d 0 := by
+  simp only [binRow, List.range_add, List.map_append, List.map_map]
+  congr 1
+  rw [List.eq_replicate_iff]
+  refine ⟨by simp, ?_⟩
+  intro x hx
+  obtain ⟨j, _, rfl⟩ := List.mem_map.1 hx
+  have : s < 2 ^ (n + j) := lt_of_lt_of_le hs (Nat.pow_le_pow_right (by norm_num) (by omega))
+  simp [Function.comp, Nat.div_eq_of_lt this]
+
+theorem foldr_add_pad (l : List Nat) (d : Nat) :
+    (l ++ List.replicate d 0).foldr (· + ·) 0 = l.foldr (· + ·) 0 := by
+  have h : ∀ d : Nat, (List.replicate d 0).foldr (· + ·) 0 = 0 := by
+    intro d; induction d with
+    | zero => rfl
+    | succ d ih => simp [List.replicate_succ, ih]
+  rw [List.foldr_append, h]
+
+theorem zip_map_self {α β : Type} (f : α → β) : ∀ l : List α, (l.map f).zip l = l.map fun s => (f s, s)
+  | [] => rfl
+  | x :: xs => by simp [zip_map_self f xs]
+
+theorem filter_lt_range (m : Nat) : ∀ M : Nat, m ≤ M → (List.range M).filter (fun s => decide (s < m)) = List.range m
+  | 0, h => by
+    have : m = 0 := by omega
+    subst this; rfl
+  | M + 1, h => by
+    rw [List.range_succ, List.filter_append]
+    by_cases hm : m ≤ M
+    · rw [filter_lt_range m M hm]
+      simp; omega
+    · have : m = M + 1 := by omega
+      subst this
+      have e1 : (List.range M).filter (fun s => decide (s < M + 1)) = List.range M := by
+        rw [List.filter_eq_self]
+        intro a ha
+        have := List.mem_range.1 ha
+        simp; omega
+      rw [e1]
+      simp [List.range_succ]
+
+/-- **the tensor variant of the cardinality filter**: for an element of length `n ≤ lmax` the valid
+rows of `_enumerate_binary_sequences_with_cardinality_tensor` are the rows of the `int` variant
+for `(n, k)`, in the same order, each padded with zeros up to `lmax`. -/
+theorem enumCardTensor_eq (n d k : Nat) :
+    enumCardTensor (n + d) n k = (enumCard n k).map (· ++ List.replicate d 0) := by
+  have hle : 2 ^ n ≤ 2 ^ (n + d) := Nat.pow_le_pow_right (by norm_num) (by omega)
+  simp only [enumCardTensor, enumCard, enumBinary_eq, zip_map_self, List.filter_map, List.map_map]
+  have e : (List.range (2 ^ (n + d))).filter
+        ((fun si : List Nat × Nat => decide (si.2 < 2 ^ n) && si.1.foldr (· + ·) 0 == k)
+          ∘ fun s => (binRow (n + d) s, s))
+      = ((List.range (2 ^ (n + d))).filter (fun s => decide (s < 2 ^ n))).filter
+          (fun s => (binRow (n + d) s).foldr (· + ·) 0 == k) := by
+    rw [List.filter_filter]
+    apply List.filter_congr
+    intro s _
+    simp [Function.comp, Bool.and_comm]
+  rw [e, filter_lt_range _ _ hle]
+  have e2 : (List.range (2 ^ n)).filter (fun s => (binRow (n + d) s).foldr (· + ·) 0 == k)
+      = (List.range (2 ^ n)).filter ((fun s : List Nat => s.foldr (· + ·) 0 == k) ∘ binRow n) := by
+    apply List.filter_congr
+    intro s hs
+    simp only [Function.comp, binRow_pad n d s (List.mem_range.1 hs), foldr_add_pad]
+  rw [e2]
+  apply List.map_congr_left
+  intro s hs
+  have hs' := List.mem_range.1 (List.mem_filter.1 hs).1
+  simp only [Function.comp, binRow_pad n d s hs']
+
 end PdtVerif.Estimators
